@@ -47,7 +47,8 @@ cp "$S/kc/go.sum" "$S/lifecycle/go.sum"
 
 "$KCINSTR" -dir "$S/lifecycle" . || exit 2
 YIELD="${VERIF_YIELD:-}"
-"$KCINSTR" -dir "$S/kc" -tags verif -constvar EventBufsiz -sites "$S/sites.txt" -yield "$YIELD" . ./types/... ./join ./client ./filter ./nsname || exit 2
+OWNER="${VERIF_OWNER:-}"
+"$KCINSTR" -dir "$S/kc" -tags verif -constvar EventBufsiz -sites "$S/sites.txt" -yield "$YIELD" -owner "$OWNER" . ./types/... ./join ./client ./filter ./nsname || exit 2
 # nothing nondeterministic may survive in the instrumented library
 if grep -n "reflect\.Select" "$S"/kc/*.go "$S"/kc/join/*.go "$S"/kc/types/*/*.go 2>/dev/null | grep -v _test.go | grep -v "^$S/kc/types/gen"; then
   fail "unsupported primitive in instrumented code"
